@@ -342,6 +342,13 @@ class Runner(object):
             todo.put(ob)
         results = []
 
+        # circuit breakers: a broken tree can turn hundreds of sub-second
+        # obligations into full-budget ones; once the verdict of the run is
+        # settled (violations replayed / too many inconclusive) stop scheduling
+        max_viol = int(os.environ.get("VERIF_MAX_VIOLATIONS", "8"))
+        max_inc = int(os.environ.get("VERIF_MAX_INCONCLUSIVE", "24"))
+        counters = {"viol": 0, "inc": 0, "skipped": 0}
+
         def loop():
             worker = _Worker()
             try:
@@ -350,9 +357,19 @@ class Runner(object):
                         ob = todo.get_nowait()
                     except queue.Empty:
                         return
+                    if counters["viol"] >= max_viol or counters["inc"] >= max_inc:
+                        with self._lock:
+                            counters["skipped"] += 1
+                        continue
                     events = self._run_one(worker, ob)
                     with self._lock:
                         results.extend(events)
+                        for kind, _ob, verdict in events:
+                            if kind == "main" and _ob.kind == "main":
+                                if verdict[0] == "refuted":
+                                    counters["viol"] += 1
+                                elif verdict[0] == "inconclusive":
+                                    counters["inc"] += 1
             finally:
                 worker.kill()
 
@@ -362,6 +379,14 @@ class Runner(object):
         for t in threads:
             t.join()
 
+        if counters["skipped"]:
+            report.extra["obligations_not_run_after_circuit_breaker"] = counters["skipped"]
+            if counters["viol"] < max_viol:
+                report.inconclusive.append(
+                    "reason=aborted: {0} obligations not run after {1} inconclusive ones".format(
+                        counters["skipped"], counters["inc"]
+                    )
+                )
         for kind, ob, verdict in results:
             if kind == "twin":
                 ok, code, detail = verdict
@@ -429,7 +454,8 @@ class Runner(object):
                 (detail.get("native") or {}).get("value"),
             )
             if entry is not None:
-                if text not in report.known:
+                # one line per listed finding (first witness)
+                if not any(k.startswith(ob.finding + ":") for k in report.known):
                     report.known.append(text)
             else:
                 path = report.write_replay(
